@@ -1,0 +1,33 @@
+//go:build verif
+
+// Contracts for govc (contract-based deductive verification, see /verif/DESIGN.md).
+// Comment-only file: it adds no code and is compiled only with -tags verif.
+
+package cityhash102
+
+// Hash128to64 is the per-label hash of the series fingerprint (called with the hashes
+// of a label's name and value). Its body is checked against the published definition
+// of CityHash's Hash128to64 - two rounds of multiply by kMul = 0x9ddfea08eb382d69 and
+// xor-shift by 47 over lo^hi and hi - so both halves of the argument, the name and
+// the value, enter the result. The clauses about the ghost log of results (hseq,
+// hcount, the three folds; specs/hash.spec) describe the log kept for the callers'
+// proofs, not the body: they are assumed (boundary), the check is proved.
+//@ spec fn shx47(v uint64) uint64 = v ^ (v >> 47)
+//@ spec fn cityHash128to64(lo uint64, hi uint64) uint64 = shx47((hi ^ shx47((lo ^ hi) * 11376068507788127593)) * 11376068507788127593) * 11376068507788127593
+//@ func (Uint128).Lower64
+//@   flag inline
+//@ func (Uint128).Higher64
+//@   flag inline
+//@ func Hash128to64 [C04]
+//@   flag function
+//@   flag boundary
+//@   flag arith=bv
+//@   check is-the-published-mix-of-both-halves: result == cityHash128to64(x[0], x[1])
+//@   ghostset hseq = upd(hseq, hcount, result)
+//@   ghostset hcount = hcount + 1
+//@   modifies hseq, hcount
+//@   requires hcount >= 0
+//@   ensures result == h128(x[0], x[1])
+//@   ensures foldAdd(hseq, hcount) == foldAdd(old(hseq), old(hcount)) + result
+//@   ensures foldXor(hseq, hcount) == foldXor(old(hseq), old(hcount)) ^ result
+//@   ensures foldMix(hseq, hcount) == foldMix(old(hseq), old(hcount)) * (1779033703 + 2 * result)
